@@ -54,9 +54,10 @@ def r_gram_only(c):
     m = int(c["m"])
     rng = np.random.default_rng(0)
     bad = []
-    for trial in range(6):
+    scales = [1.0, 1.0, 1e-2, 1e-3, 3e-4, 1.5e-4, 9e-5, 6e-5, 3e-5, 1e-5, 1e-8, 1e3, 1e6]
+    for trial in range(len(scales) * 2):
         n = m + 1
-        J = rng.normal(size=(m, n))
+        J = rng.normal(size=(m, n)) * scales[trial % len(scales)]
         Q, _ = np.linalg.qr(rng.normal(size=(n, n)))
         name = c["agg"]
         params = dict(f=0 if m == 3 else 1, k=1) if name == "krum" else {}
